@@ -132,6 +132,14 @@ def run(tier):
                      ("arrayGet(5, 0)", None), ("mathSqrt('x')", None)):
         cases.append({'text': f"x = {call}\nsystemLog('after')\nreturn x\n", 'globals': {}, 'debug': True, 'max': 100})
         meta.append(('failure-report', (call, fv)))
+    # (8) library functions that exhaust the host's recursion limit on containers that contain themselves: the call is null (reported in debug
+    #     mode) and execution continues - it is not a script error
+    cyc = "a = arrayNew(1)\narrayPush(a, a)\nb = arrayNew(1)\narrayPush(b, b)\no = objectNew()\nobjectSet(o, 'self', o)\np = objectNew()\nobjectSet(p, 'self', p)\n"
+    for call in ('systemCompare(a, b)', 'mathMax(a, b)', 'mathMin(b, a)', 'arrayIndexOf(arrayNew(a), b)', 'arrayLastIndexOf(arrayNew(a), b)',
+                 'arraySort(arrayNew(a, b))', 'systemCompare(o, p)', 'jsonStringify(a)', 'jsonStringify(o)', 'systemIs(a, b)'):
+        for debug in (False, True):
+            cases.append({'text': cyc + f"x = {call}\nsystemLog('after')\nreturn systemType(x)\n", 'globals': {}, 'debug': debug, 'max': 200})
+            meta.append(('library-recursion', (call, debug)))
     # (5) generated programs on adversarial globals
     n_prog = 120 if tier == 'quick' else 1500
     for _ in range(n_prog):
@@ -172,6 +180,12 @@ def run(tier):
         if tag in ('include-debug', 'include'):
             if 'res' not in res and 'rt' not in res and 'parse' not in res:
                 chk.oracle_fail.append({'class': 'include-run-gave-neither-a-value-nor-a-script-error', 'source': what, 'entry': tag, 'got': res})
+        if tag == 'library-recursion':
+            call, dbg = what
+            plain = [ln for ln in res.get('log', []) if not ln.startswith('BareScript:')]
+            if 'res' not in res or plain != ['after']:
+                chk.oracle_fail.append({'class': 'library-call-on-cyclic-containers-is-not-null-or-stops-the-script', 'source': call, 'debug': dbg,
+                                        'expected': {'log': ['after']}, 'got': {k: res.get(k) for k in ('res', 'rt', 'log')}})
         if tag == 'failure-report':
             call, fv = what
             fname = call.split('(')[0]
